@@ -59,7 +59,7 @@ def main(prop, tier, seed, repo, evidence_path, log, drv):
         log("INCONCLUSIVE property=%s %s" % (prop, reason.replace("\n", " | ")[:1500]))
         return 2
 
-    rc, out, _ = drv.sh(["cargo", "build", "--release", "--offline", "-p", "mon", "--bin", "gen", "--no-default-features"], hd)
+    rc, out, _ = drv.sh(["cargo", "build", "--release", "--offline", "-p", "mon", "--bin", "gen"], hd)
     if rc != 0:
         return inconclusive("building the generator failed: " + out[-1500:])
     work = os.path.join(hd, "target", "c14-%s-%d" % (tier, os.getpid()))
